@@ -93,6 +93,40 @@ def conformance(seed, rounds):
             "what": "every clause of model/hashbrown_0_14_5.rs that a proof uses, asserted on random real hashbrown 0.14.5 tables (debug assertions on)"}
 
 
+def sensitivity(pid):
+    """thorough tier, evidence only: apply every seeded change that targets this property to a scratch copy of /repo
+    (under .work/, removed afterwards) and record whether an obligation labelled with the property fails"""
+    import shutil, tempfile
+    out = []
+    base = os.path.join(VERIF, "seeded")
+    for sid in sorted(os.listdir(base)) if os.path.isdir(base) else []:
+        mp = os.path.join(base, sid, "meta.json")
+        if not os.path.exists(mp):
+            continue
+        meta = json.load(open(mp))
+        if meta.get("breaks_property") != pid:
+            continue
+        os.makedirs(os.path.join(VERIF, ".work"), exist_ok=True)
+        scratch = tempfile.mkdtemp(prefix="sens-", dir=os.path.join(VERIF, ".work"))
+        try:
+            shutil.copytree(os.path.join(REPO, "src"), os.path.join(scratch, "src"))
+            shutil.copy(os.path.join(REPO, "Cargo.toml"), scratch)
+            r = subprocess.run(["patch", "-p1", "-s", "-d", scratch, "-i", os.path.join(base, sid, "patch.diff")],
+                               stdout=subprocess.PIPE, stderr=subprocess.STDOUT, text=True)
+            if r.returncode != 0:
+                out.append({"seed": sid, "result": "patch does not apply to the current tree"})
+                continue
+            res = pipeline.run_with_demotion(repo=scratch, probes=False, profiles=("on",))
+            obl = sorted(set("%s@%s" % (f["name"], f["fn"]) for fl in res.get("failures", {}).values() for f in fl if pid in f["props"]))
+            staked = [fn for fn in res.get("demoted", []) if pid in res.get("fn_props", {}).get(fn, [])]
+            out.append({"seed": sid, "detected_by_verus": bool(obl), "failed_obligations": obl[:6],
+                        "undecided": res.get("undecided") or ("auto-demoted: " + ", ".join(staked) if staked else None),
+                        "bounded_harnesses_that_target_it": meta.get("kani_harness")})
+        finally:
+            shutil.rmtree(scratch, ignore_errors=True)
+    return out
+
+
 def write_kani_replay(pid, kr):
     os.makedirs(os.path.join(VERIF, "replays"), exist_ok=True)
     path = os.path.join(VERIF, "replays", "%s-kani-%s-%s.json" % (pid, kr["harness"], tree_hash()))
@@ -143,6 +177,7 @@ def main():
     findings, fixed = load_known()
     conf = conformance(seed, 4000 if a.tier == "thorough" else 300)
     stability = None
+    sens = None
     kani_results = {}
     if a.tier == "thorough" and not res.get("undecided"):
         # solver stability: the same file under three other Z3 seeds; a clause that flips is undischarged
@@ -152,6 +187,7 @@ def main():
             fl = sorted(set((f["fn"], f["name"]) for f in r2.get("failures", {}).get("on", [])))
             stability.append({"z3_random_seed": sd, "verified": r2.get("runs", {}).get("on", {}).get("verified"), "failed": fl,
                               "undecided": r2.get("undecided")})
+        sens = sensitivity(pid)
         names = [h["name"] for h in kani_run.registry()["harnesses"] if pid in h["props"]]
         if names:
             kani_results = kani_run.run(names, repo=REPO)
@@ -224,13 +260,15 @@ def main():
         mine = [x for x in flipped if pid in res["fn_props"].get(x[0], [])]
         if mine:
             undecided = "solver instability: obligation(s) %s fail under another Z3 seed" % mine
-    kani_viol = []
+    kani_viol, kani_inconclusive = [], []
     for n, kr in kani_results.items():
         if kr["status"] == "failed":
             kani_viol.append(kr)
         elif kr["status"] in ("build-failed",):
             if not undecided and not violations:
                 undecided = "Kani harness crate does not build against this tree: %s" % kr.get("detail", "")[-300:]
+        elif kr["status"] != "ok":
+            kani_inconclusive.append("%s: %s" % (n, kr["status"]))  # timeout / out-of-memory / unknown: bounded stand-in undecided, no alarm
     # ---- evidence
     clauses = res.get("prop_clauses", {}).get(pid, []) if not res.get("undecided") else []
     fns = sorted(set(c["fn"] for c in clauses))
@@ -296,7 +334,7 @@ def main():
         "violations": [{"obligation": f["name"], "function": f["fn"], "message": f["msg"], "profile": prof,
                         "statement": f["text"]} for prof, f in violations],
         "undecided": undecided, "demoted_functions": res.get("demoted", []),
-        "conformance": conf, "solver_stability": stability,
+        "conformance": conf, "solver_stability": stability, "sensitivity": sens,
         "bounded_kani": ({"config": kani_run.registry()["config"], "prefix": kani_run.registry()["prefix"],
                           "harnesses": [dict(kr, **{k: v for k, v in next(h for h in kani_run.registry()["harnesses"] if h["name"] == n).items() if k in ("unwind", "symbolic", "claim", "props")})
                                         for n, kr in kani_results.items()]}
@@ -330,6 +368,9 @@ def main():
         sys.exit(1)
     if kani_viol:
         sys.exit(1)
+    if a.tier == "thorough":
+        print("bounded (Kani): %d harness(es) ok%s" % (sum(1 for kr in kani_results.values() if kr["status"] == "ok"),
+              ("; inconclusive: " + ", ".join(kani_inconclusive)) if kani_inconclusive else ""))
     print("OK property=%s tier=%s: %d labelled clauses, %d/%d verification conditions discharged in %d functions (%s), %.1fs" % (
         pid, a.tier, len(clauses), discharged, ob_total, len(fn_rows),
         ", ".join("%s: %s verified" % (p, r.get("verified")) for p, r in runs.items() if p != "probes"), time.time() - t0))
